@@ -1,5 +1,5 @@
 (* allow-axioms:  *)
-From RRE Require Import Base.Sx Generated.Consts Model.ReteAgenda Proofs.ReteAgendaProofs Proofs.ReteAgendaHistoryProofs.
+From RRE Require Import Base.Sx Generated.Consts Model.ReteAgenda Proofs.ReteAgendaProofs Proofs.ReteAgendaHistoryProofs Proofs.AgendaOrdProofs.
 Open Scope Z_scope.
 From RRE Require Import Properties.C07.
 Check (C07_next_is_eligible_and_greatest : forall n a a' m,
@@ -7,6 +7,8 @@ Check (C07_next_is_eligible_and_greatest : forall n a a' m,
   eligible a m = true /\
   exists heap, grp_get (groups a) (focus a') = Some heap /\ In m heap /\
                forall y, In y heap -> eligible a y = true -> better y m = false).
+Check (C07_ordering_is_the_sources : forall a b,
+  better a b = match lex_cmp agenda_ord a b with Gt => true | _ => false end).
 Check (C07_pop_loop_spec : forall a n l,
   (length l < n)%nat -> NoDup (map a_created l) -> NoDup (map a_id l) ->
   pop_eligible n a l =
